@@ -145,7 +145,7 @@ var asrtFaults = map[string][]string{
 	"method":    {"holder", "absent", "bearer-case", "empty"},
 	"scd":       {"absent"},
 	"recipient": append(append([]string{"absent", "wrong", "slash", "case", "space", "empty"}, cfgVariants...), urlVariants...),
-	"nooa":      {"absent", "empty", "garbage", "dateonly", "nozone", "lspace", "past1ns", "past1s", "past1h"},
+	"nooa":      {"absent", "empty", "garbage", "dateonly", "nozone", "lspace", "past1ns", "past1s", "past1h", "equal-z", "equal-plus00", "equal-plus01", "equal-minus05", "equal-frac"},
 }
 
 func sortedKeys(m map[string][]string) []string {
@@ -306,6 +306,21 @@ func applyFault(m *h.ResponseModel, sp h.SPConfig, f Fault) (ErrSpec, bool) {
 			return ErrSpec{Type: "ErrInvalidValue", Key: "NotOnOrAfter", Reason: saml2.ReasonExpired}, true
 		case "past1h":
 			a.SCNotOnOrAfter = h.S(h.RenderTime(now.Add(-time.Hour), 60, false, 9))
+			return ErrSpec{Type: "ErrInvalidValue", Key: "NotOnOrAfter", Reason: saml2.ReasonExpired}, true
+		case "equal-z", "equal-plus00", "equal-plus01", "equal-minus05", "equal-frac":
+			// the bound IS the clock instant (reached: NotOnOrAfter is exclusive), in several spellings of that instant
+			switch f.Variant {
+			case "equal-z":
+				a.SCNotOnOrAfter = h.S(h.RenderTime(now, 0, true, 9))
+			case "equal-plus00":
+				a.SCNotOnOrAfter = h.S(h.RenderTime(now, 0, false, 9))
+			case "equal-plus01":
+				a.SCNotOnOrAfter = h.S(h.RenderTime(now, 60, false, 9))
+			case "equal-minus05":
+				a.SCNotOnOrAfter = h.S(h.RenderTime(now, -300, false, 9))
+			default:
+				a.SCNotOnOrAfter = h.S(h.RenderTime(now, 330, false, h.MinFrac(now)))
+			}
 			return ErrSpec{Type: "ErrInvalidValue", Key: "NotOnOrAfter", Reason: saml2.ReasonExpired}, true
 		}
 		return ErrSpec{Type: "ErrParsing", Tag: "NotOnOrAfter"}, true
